@@ -37,6 +37,18 @@ CLAIMS = {
              "the mirror-order relation between clockwise_about and the table is decided by correspondence, not proved; the 'row never overflows' bound "
              "is exercised by correspondence (degree 0..12), not yet proved.",
         ref="§7 C02"),
+    "C04": dict(
+        technique="Lean 4 proof (CNF semantics: models of the encoded formula = one-hot encodings of valid assignments; decode; bijection) + correspondence on the recorded CNF",
+        text="Kernel-checked theorems about the executable encoders for every number of items, colours, conflict pairs and fixed colours: pysat's pairwise "
+             "exactly-one semantics; a satisfying assignment is exactly 'one colour per item, conflicting items differ, fixed honoured'; argmax-decoding of any "
+             "model is a valid assignment with colours in range (soundness); every valid assignment is the decoding of a model (completeness: unsolvable only "
+             "if none exists); models and valid assignments are in bijection on the reserved variables (each assignment enumerated exactly once); the conflict "
+             "list of edge_color is 'distinct edges sharing a vertex'; a dimer model selects exactly one incident edge per vertex; color_lattice's j-th helper "
+             "edge gets colour j. The CNF koala hands to the solver is recorded and compared clause-for-clause with the encoder; all returned models are "
+             "evaluated/decoded by the model; verdicts, counts and enumerations are judged against an independent exhaustive search.",
+        note="Trusted: Lean kernel/Mathlib/standard axioms; the Glucose SAT solver for UNSAT verdicts and for enumerating all models (cross-checked by exhaustive "
+             "backtracking up to a node budget, else by a second solver); pysat's CardEnc output is recorded rather than modelled; harness.",
+        ref="§7 C04"),
 }
 
 PENDING_REASON = "check not built yet in this revision (work in progress; see DESIGN.md §7 for the planned Lean model and tie)"
